@@ -341,10 +341,10 @@ def calibration_single_ended_solver(  # noqa: MC0001
             transient_m_data = np.zeros((nm, nta))
             for ii, row in enumerate(matching_indices):
                 for jj, transient_att_xi in enumerate(trans_att):
-                    transient_m_data[ii, jj] = np.logical_and(
-                        transient_att_xi > x_all[row[0]],
-                        transient_att_xi < x_all[row[1]],
-                    ).astype(int)
+                    # I_0 - I_1 contains TA(x_1) - TA(x_0), with TA acting on x >= splice
+                    transient_m_data[ii, jj] = float(
+                        x_all[row[1]] >= transient_att_xi
+                    ) - float(x_all[row[0]] >= transient_att_xi)
 
             data_mt = np.tile(transient_m_data, (nt, 1)).flatten("F")
 
